@@ -284,7 +284,9 @@ class Interp:
                     continue
                 for s in blk.stmts:
                     if s.k == "assign":
+                        self._cur = (f, x, H)
                         self.do_local(body, s, L)
+                        self._cur = None
                         self.do_assign(f, x, al, s, H, bb, L)
                 t = blk.term
                 if t.k == "call":
@@ -346,6 +348,17 @@ class Interp:
             o = rv.ops[0]
             if o.place is not None and not o.place[1] and isinstance(L.get(o.place[0]), bool):
                 val = not L[o.place[0]]
+        elif rv.k == "bin" and rv.j.get("op") in ("Eq", "Ne") and getattr(self, "_cur", None) is not None:
+            f_, x_, H_ = self._cur
+            try:
+                from .cfg import facts_of
+                for fact in facts_of(x_.rvalue(rv, x_.depth), True):
+                    r_ = self.eval_fact(f_, fact, H_, L)
+                    if r_ is not None:
+                        val = r_
+                        break
+            except Exception:
+                val = None
         elif rv.k == "discr":
             pl = rv.place
             if not [e for e in pl[1] if e[0] != "*"]:
@@ -489,6 +502,19 @@ class Interp:
             pos = v0 in ("Ok", "Some")
             want_pos = cp.endswith("is_ok") or cp.endswith("is_some")
             return fin([spec.freeze(H)], pos == want_pos)
+        # a boolean computed from tracked state and kept in a local (`let opened = match w { Some(s) => s.state == Opened, .. }`,
+        # `let has_writer = self.object_writer.is_some()`): evaluate it in the current store so that a later branch on the local is precise
+        if dest is not None and c is not None and (re.search(r"(PartialEq|cmp::PartialEq<.*>)::(eq|ne)$|::eq$|::ne$", cp) or
+                                                   re.search(r"Option::(is_some|is_none)$", cp)):
+            try:
+                e_ = x.call_expr(bb, t, x.depth)
+                from .cfg import facts_of
+                for fact in facts_of(e_, True):
+                    r_ = self.eval_fact(f, fact, H, L)
+                    if r_ is not None:
+                        return fin([spec.freeze(H)], r_)
+            except Exception:
+                pass
         if re.search(r"Try>?::branch$", cp.replace(" ", "")) or cp.endswith("::branch"):
             if isinstance(v0, str):
                 return fin([spec.freeze(H)], "Continue" if v0 in ("Ok", "Some") else "Break")
